@@ -40,7 +40,10 @@ func AddTrailers(
 ) {
 	for _, header := range src {
 		for _, val := range header.Value {
-			dest.Add(http.TrailerPrefix+header.Name, val)
+			// http.Header.Add does not canonicalize a key that contains the prefix's
+			// colon, so names that differ only in case would end up under different keys
+			// (and lose values or their order when the server merges them).
+			dest.Add(http.TrailerPrefix+http.CanonicalHeaderKey(header.Name), val)
 		}
 	}
 }
